@@ -89,6 +89,12 @@ def monitor_trace(tr):
         if isinstance(out, dict) and 'independence' in out:
             viol.append(dict(prop='C20', i=rec['i'], sig=dict(kind='not-independent', what=out['independence']['what']),
                              msg='using the restored copy changed the original (%s)' % out['independence']['what']))
+        if kind == 'twin':
+            tags['twin-run'] += 1
+            if not out['twin']['ok']:
+                viol.append(dict(prop='C20', i=rec['i'], sig=dict(kind='copy-continues-differently', algo=algo),
+                                 msg='%d further calls from one random state: the copy gives %s, the original %s' % (out['twin']['ncalls'], out['twin']['copy'], out['twin']['orig'])))
+            continue
         if kind == 'clone':
             if out.get('clone') != 'ok':
                 viol.append(dict(prop='C20', i=rec['i'], sig=dict(kind='unpicklable', exc=out.get('exc')), msg='dill round-trip failed: %r' % (out,)))
